@@ -10,6 +10,8 @@ import (
 	"time"
 
 	"github.com/paulmach/osm"
+	pb "github.com/paulmach/osm/osmpbf/internal/osmpbf"
+	"google.golang.org/protobuf/proto"
 )
 
 func pbfFlatten(objs [][]osm.Object, upto int) []osm.Object {
@@ -442,4 +444,74 @@ func oracleC06StringBoundary(f PbfFile, below int) {
 	vAssert(res.Err != nil)
 	want := pbfFlatten(objs, len(objs)-1)
 	vAssert(len(res.Objects) == len(want))
+}
+
+// C01, header: "Header() reports the header block's bounding box,
+// required/optional features, writing program, source and replication fields
+// unchanged", each optional field present or absent.
+//
+//@ func oracleC01Header
+//@   props C01
+//@   oracle
+//@   covers decodeOSMHeader
+func oracleC01Header(present int, l, r, t, b int, ts int, seq int, zlibBlob bool) {
+	has := func(i uint) bool { return pbfAbs(present)>>i&1 == 1 }
+	hb := &pb.HeaderBlock{RequiredFeatures: []string{"OsmSchema-V0.6", "DenseNodes"}}
+	want := &Header{RequiredFeatures: []string{"OsmSchema-V0.6", "DenseNodes"}}
+	if has(0) {
+		hb.OptionalFeatures = []string{"Sort.Type_then_ID", "x"}
+		want.OptionalFeatures = []string{"Sort.Type_then_ID", "x"}
+	}
+	if has(1) {
+		hb.Writingprogram = proto.String("prog")
+		want.WritingProgram = "prog"
+	}
+	if has(2) {
+		hb.Source = proto.String("src")
+		want.Source = "src"
+	}
+	if has(3) {
+		hb.OsmosisReplicationBaseUrl = proto.String("http://u/")
+		want.ReplicationBaseURL = "http://u/"
+	}
+	if has(4) {
+		hb.OsmosisReplicationSequenceNumber = proto.Int64(int64(pbfAbs(seq)))
+		want.ReplicationSeqNum = uint64(pbfAbs(seq))
+	}
+	if has(5) {
+		hb.OsmosisReplicationTimestamp = proto.Int64(int64(pbfAbs(ts)))
+		want.ReplicationTimestamp = time.Unix(int64(pbfAbs(ts)), 0).UTC()
+	}
+	if has(6) {
+		hb.Bbox = &pb.HeaderBBox{Left: proto.Int64(int64(l)), Right: proto.Int64(int64(r)), Top: proto.Int64(int64(t)), Bottom: proto.Int64(int64(b))}
+		want.Bounds = &osm.Bounds{MinLon: 1e-9 * float64(l), MaxLon: 1e-9 * float64(r), MinLat: 1e-9 * float64(b), MaxLat: 1e-9 * float64(t)}
+	}
+	hraw, err := proto.Marshal(hb)
+	vAssume(err == nil)
+	data := pbfFileBlock("OSMHeader", hraw, zlibBlob)
+	s := New(context.Background(), bytes.NewReader(data), 1)
+	defer s.Close()
+	got, err := s.Header()
+	vAssert(err == nil && got != nil)
+	if got == nil {
+		return
+	}
+	eq := func(a, b []string) bool {
+		if len(a) != len(b) {
+			return false
+		}
+		for i := range a {
+			if a[i] != b[i] {
+				return false
+			}
+		}
+		return true
+	}
+	vAssert(eq(got.RequiredFeatures, want.RequiredFeatures) && eq(got.OptionalFeatures, want.OptionalFeatures))
+	vAssert(got.WritingProgram == want.WritingProgram && got.Source == want.Source && got.ReplicationBaseURL == want.ReplicationBaseURL)
+	vAssert(got.ReplicationSeqNum == want.ReplicationSeqNum && got.ReplicationTimestamp.Equal(want.ReplicationTimestamp) && got.ReplicationTimestamp.IsZero() == !has(5))
+	vAssert((got.Bounds == nil) == (want.Bounds == nil))
+	if got.Bounds != nil && want.Bounds != nil {
+		vAssert(*got.Bounds == *want.Bounds)
+	}
 }
